@@ -191,7 +191,13 @@ func (w *world) start() error {
 		}
 	}
 	pc.Start()
-	<-pc.doneCh // numWorkers == 0: the start goroutine ends once the caches have synced
+	// numWorkers == 0: the start goroutine ends once the caches have synced. (Should it not end - a
+	// Start that parks until the stop - the stepped harness needs only the synced caches, which
+	// every test waits for through quiesce() anyway.)
+	select {
+	case <-pc.doneCh:
+	case <-time.After(2 * time.Second):
+	}
 	return nil
 }
 
